@@ -691,6 +691,7 @@ class SDMXG1Settings(SDMXGSettings):
                 for the first n1 values of n in pows.
         """
         super(SDMXG1Settings, self).__init__(pows, nd)
+        assert n1 <= len(pows)
         self._n1 = n1
 
     @property
